@@ -2578,10 +2578,8 @@ class Head(Expr):
                     f"only {self.frame.npartitions} partitions, head received {npartitions}"
                 )
             partitions = self._partitions
-            if is_index_like(self._meta):
-                return BlockwiseHeadIndex(
-                    Partitions(self.frame, partitions), self.n, safe=False
-                )
+            # an Index has no head method
+            head = BlockwiseHeadIndex if is_index_like(self._meta) else BlockwiseHead
 
             # a negative n takes what is there: there are no "insufficient elements"
             safe = npartitions == 1 and self.frame.npartitions != 1 and self.n >= 0
@@ -2590,7 +2588,7 @@ class Head(Expr):
                 # row of the single partitions is needed
                 frame = Partitions(self.frame, partitions)
             else:
-                frame = BlockwiseHead(
+                frame = head(
                     Partitions(self.frame, partitions), self.n, npartitions, safe
                 )
             if npartitions != 1:
@@ -2601,9 +2599,7 @@ class Head(Expr):
                     and npartitions != -1
                     and self.n >= 0
                 )
-                frame = BlockwiseHead(
-                    Repartition(frame, new_partitions=1), self.n, 1, safe
-                )
+                frame = head(Repartition(frame, new_partitions=1), self.n, 1, safe)
             return frame
 
     @property
@@ -2736,7 +2732,9 @@ class BlockwiseTail(Tail, Blockwise):
 
 class BlockwiseTailIndex(BlockwiseTail):
     def _task(self, index: int):
-        return (operator.getitem, (self.frame._name, index), slice(-self.n, None))
+        # -0 is 0: the slice from -n on would be everything for n = 0
+        rows = slice(-self.n, None) if self.n else slice(0, 0)
+        return (operator.getitem, (self.frame._name, index), rows)
 
 
 class Binop(Elemwise):
